@@ -20,8 +20,51 @@ EXPLANATION = (
     "between sequence items (00 00) is the splitter's separator and no sequence element struct has a field of that type, "
     "fields are emitted in declaration order, scalar widths and byte orders of serialiser/deserialiser pairs agree with the "
     "type names; (T1) look-ahead byte accounting of tlv_iterator / tlv_array (peek offset, bounds test before the read, "
-    "merged slice, advance). Quantifier: every struct and every field row - not sampled messages."
+    "merged slice, advance); (K5) struct-valued characteristic access returns struct.decode of the whole stored payload "
+    "(or of every item tlv_array yields), unconditionally. Quantifier: every struct and every field row - not sampled messages."
 )
+VALUE_GETTER = "aiohomekit.model.characteristics.characteristic.Characteristic.value"
+
+
+def _k5(ctx: Context) -> None:
+    """Characteristic.value for a tlv8 characteristic with a registered struct: the single-message form returns
+    struct.decode(<the whole base64-decoded payload>) - unconditionally, an all-unset message encodes to zero bytes and
+    must decode to the equal all-unset message, not to None; the array form returns struct.decode(item) for every item
+    tlv_array splits the payload into."""
+    ck = ctx.ck
+    T = ctx.terms
+    f = ctx.func(VALUE_GETTER)
+    cfg = ctx.cfg(VALUE_GETTER)
+    stored = ("attr", ("param", f.pos_params[0]), "_value")
+    payload = ("call", ("glob", "base64.b64decode"), (stored,), ())
+
+    def is_struct(t) -> bool:
+        return t[0] == "call" and t[1][0] == "attr" and t[1][2] == "get" and t[2] == (("const", "struct"),)
+
+    single = arrays = 0
+    for n in cfg.nodes:
+        if n.kind != "return" or not n.exprs or n.copy_of:
+            continue
+        t = strip_sites(T.of(cfg, n, n.exprs[0]))
+        if not contains(t, is_struct):
+            continue
+        ok_single = t[0] == "call" and t[1][0] == "attr" and t[1][2] == "decode" and is_struct(t[1][1]) and t[2] == (payload,) and not t[3]
+        ok_array = False
+        if t[0] == "comp" and t[1] == "ListComp" and len(t[3]) == 1:
+            elt, (var, it, conds) = t[2], t[3][0]
+            ok_array = (elt[0] == "call" and elt[1][0] == "attr" and elt[1][2] == "decode" and is_struct(elt[1][1]) and elt[2] == (var,)
+                        and it == ("call", ("glob", f"{M}.tlv_array"), (payload,), ()) and not conds)
+        single += ok_single
+        arrays += ok_array
+        ck.check("C16.K5", ok_single or ok_array,
+                 "Characteristic.value: a struct-valued result is struct.decode(whole payload) or [struct.decode(item) for item in tlv_array(payload)]",
+                 f"{ctx.fkey(f)}:struct-result:{'single' if not t[0] == 'comp' else 'array'}",
+                 f"Characteristic.value returns {show(t, 160)} for a struct-valued characteristic: the message is not simply the decode of the whole "
+                 "stored payload (an all-unset message is zero bytes and must still decode to the equal message)", ctx.loc(f, n))
+    ck.check("C16.K5", single >= 1 and arrays >= 1, "Characteristic.value has both forms (single message, bare array)", f"{ctx.fkey(f)}:both-forms",
+             f"Characteristic.value: single-message returns {single}, array returns {arrays}", f.loc())
+
+
 TRUSTED = ["dataclasses.fields() returns fields in declaration order", "struct.pack/unpack and int.from_bytes/to_bytes"]
 
 M = "aiohomekit.tlv8"
@@ -117,6 +160,8 @@ def run(ctx: Context) -> None:
         _k3(ctx, ss)
     if ck.rule("C16.K4", "constants, order and scalar codecs agree"):
         _k4(ctx, ss, ser, des)
+    if ck.rule("C16.K5", "struct-valued characteristic access decodes the whole payload"):
+        _k5(ctx)
     if ck.rule("C16.T1", "look-ahead byte accounting"):
         _t1(ctx)
 
@@ -459,6 +504,11 @@ MANIFEST = {
 TWIN_FILES = ["aiohomekit/tlv8.py", "aiohomekit/meshcop.py", "aiohomekit/controller/ble/structs.py", "aiohomekit/controller/coap/structs.py", "aiohomekit/model/characteristics/structs.py"]
 _F = "aiohomekit/tlv8.py"
 VARIANTS = [
+    {"name": "single struct-valued characteristic decoded through tlv_array (None for the all-unset message)",
+     "file": "aiohomekit/model/characteristics/characteristic.py",
+     "old": "                return struct.decode(new_val)\n",
+     "new": "                items = [struct.decode(x) for x in tlv_array(new_val)]\n                return items[0] if items else None\n",
+     "expect": "C16.K5"},
     {"name": "float codec removed (pinned defect)", "file": _F, "old": "    float: deserialize_float,\n", "new": "", "expect": "C16.K1"},
     {"name": "bytes not deserialisable", "file": _F, "old": "    bytes: deserialize_bytes,\n", "new": "", "expect": "C16.K1"},
     {"name": "new field of an unsupported type", "file": "aiohomekit/controller/ble/structs.py", "old": "class BleRequest(TLVStruct):\n", "new": "class BleRequest(TLVStruct):\n    extra: int = tlv_entry(0x7E)\n", "expect": "C16.K1"},
